@@ -70,6 +70,136 @@ def builtin_sweep(rep, rng, n):
                                      "generated expression differs from docPred although the implementation agrees")
 
 
+def series_sweep(rep, rng, n):
+    """`SeriesSchema.validate` (with and without an index component, matching / other / no series name) against
+    Lean's `seriesErrors` and the declarative `fieldOk` (theorem `series_accepts_iff_partial`)"""
+    import warnings
+    import pandera as pa
+    cases = []
+    for _ in range(n):
+        c = P.gen_case(rng, regex_rate=0.0, index_schema_rate=0.5, conform_bias=0.75, max_rows=5)
+        S, D = c["schema"], c["frame"]
+        if not S["columns"] or not D["cols"] or len(D["index"]) != 1:
+            continue
+        spec = dict(rng.choice(S["columns"]), regex=None, coerce=False, default=None)
+        col = rng.choice([x for x in D["cols"] if x["name"] == spec["name"]] or D["cols"])
+        r = rng.random()
+        sname = col["name"] if r < 0.6 else (None if r < 0.8 else "zz")
+        spec["name"] = rng.choice([col["name"], col["name"], None, "other"])
+        ix = dict(S["index"], coerce=False) if S["index"] is not None else None
+        fr = {"cols": [dict(col, name=sname if sname is not None else "")], "index": D["index"], "nrows": D["nrows"]}
+        cases.append({"mode": "series", "spec": spec, "ix": ix, "sname": sname, "frame": fr})
+    ans = run_driver("C01", cases)
+    for c, a in zip(cases, ans):
+        if "error" in a:
+            rep.correspondence_break(c, "driver: " + a["error"])
+            continue
+        if not a["wf"]:
+            continue
+        probe = {"schema": {"columns": [dict(c["spec"], name=c["frame"]["cols"][0]["name"])], "index": c["ix"]}, "frame": c["frame"]}
+        if not P.checks_typed(probe):
+            rep.count("series:skipped:check-of-another-kind")
+            continue
+        col = c["frame"]["cols"][0]
+        ser = A.series_of(col["vals"], col["dtype"], name=c["sname"], index=A.index_of(c["frame"]["index"]))
+        try:
+            schema = A.series_schema_of(c["spec"], index_spec=c["ix"])
+        except Exception:  # noqa: BLE001
+            continue
+        kind, out = P.run_validate(schema, ser.copy(), lazy=False)
+        rep.evaluations += 1
+        rep.count("series:" + kind)
+        if kind == "crash":
+            if all(v == A.NULL for v in col["vals"]) or not col["vals"]:
+                rep.count("series:crash-on-vacuous-column")
+                continue
+            rep.property_failure(c, f"SeriesSchema.validate raised {type(out).__name__}: {str(out)[:100]}")
+            continue
+        accept = kind == "ok"
+        if accept != a["sat"]:
+            rep.property_failure(c, f"SeriesSchema verdict differs from the declared semantics: implementation "
+                                    f"{'accepts' if accept else 'rejects'}, fieldOk = {a['sat']}",
+                                 region="K_C01_strVacuous" if a["inK"] else None, detail={"model_errors": a["errors"][:3]})
+        elif accept != a["accepts"] and not a["inK"]:
+            rep.correspondence_break(c, "model of SeriesSchema.validate differs from the implementation",
+                                     detail={"model_errors": a["errors"][:3]})
+        elif accept and not (out.equals(ser) and out.index.equals(ser.index) and out.dtype == ser.dtype):
+            rep.property_failure(c, "SeriesSchema.validate succeeded without parsing options but returned a different series")
+
+
+def multiindex_sweep(rep, rng, n):
+    """MultiIndex schemas: the backend validates the index levels as the columns of a dataframe, so the declared
+    semantics is `Sat` of the level components over the frame of levels (Lean, C01's driver); entries: a
+    DataFrameSchema carrying the MultiIndex and the stand-alone MultiIndex component"""
+    import pandas as pd
+    import pandera as pa
+    cases, metas = [], []
+    for _ in range(n):
+        c = P.gen_case(rng, regex_rate=0.0, index_schema_rate=0.0, conform_bias=0.8, max_rows=4)
+        S, D = c["schema"], c["frame"]
+        k = rng.choice([2, 2, 3])
+        if len(D["cols"]) < k:
+            continue
+        levels = rng.sample(D["cols"], k)
+        named = rng.random() < 0.6
+        names = [f"i{j}" for j in range(k)] if named else [None] * k
+        specs = []
+        for j, lv in enumerate(levels):
+            sp = next((x for x in S["columns"] if x["name"] == lv["name"] and x["regex"] is None), None)
+            sp = dict(sp) if sp else {"dtype": lv["dtype"], "nullable": True, "unique": False, "checks": [], "reportDup": "first"}
+            sp.update(name=names[j], regex=None, required=True, coerce=False, default=None)
+            specs.append(sp)
+        ordered = rng.random() < 0.8
+        strict = rng.random() < 0.3
+        # the frame may carry the levels in another order, or one level more than declared
+        perm = list(range(k))
+        if rng.random() < 0.25:
+            rng.shuffle(perm)
+        flevels = [dict(levels[j], name=(names[j] if named else str(j))) for j in perm]
+        fnames = [names[j] for j in perm]
+        model_schema = {"columns": [dict(sp, name=(sp["name"] if named else str(j))) for j, sp in enumerate(specs)],
+                        "index": None, "strict": "yes" if strict else "no", "ordered": ordered, "unique": [],
+                        "reportDup": "first", "coerce": False, "addMissing": False, "dropInvalid": False}
+        if not named:       # positional: the frame of levels is labelled 0..k-1 whatever the order
+            flevels = [dict(lv, name=str(j)) for j, lv in enumerate(flevels)]
+        model_frame = {"cols": flevels, "index": A.default_index(D["nrows"]), "nrows": D["nrows"]}
+        cases.append({"schema": model_schema, "frame": model_frame, "depth": "schemaAndData"})
+        metas.append({"mode": "multiindex", "specs": specs, "levels": [dict(levels[j]) for j in perm], "names": fnames,
+                      "ordered": ordered, "strict": strict, "nrows": D["nrows"]})
+    ans = run_driver("C01", cases)
+    for mc, m, a in zip(cases, metas, ans):
+        if "error" in a:
+            rep.correspondence_break(m, "driver: " + a["error"])
+            continue
+        if not a["wf"] or not P.checks_typed(mc) or a.get("outOfScope"):
+            continue
+        try:
+            arrays = [A.series_of(lv["vals"], lv["dtype"]).values for lv in m["levels"]]
+            idx = pd.MultiIndex.from_arrays(arrays, names=m["names"])
+            df = pd.DataFrame({"v": pd.Series(range(m["nrows"]), dtype="int64").values}, index=idx)
+            mi = pa.MultiIndex([A.index_schema_of(sp) for sp in m["specs"]], ordered=m["ordered"], strict=m["strict"])
+        except Exception as e:  # noqa: BLE001
+            rep.count("multiindex:unbuildable:" + type(e).__name__)
+            continue
+        for entry, schema in (("DataFrameSchema+MultiIndex", pa.DataFrameSchema({"v": pa.Column(int)}, index=mi)),
+                              ("MultiIndex", mi)):
+            kind, out = P.run_validate(schema, df.copy(), lazy=False)
+            rep.evaluations += 1
+            rep.count(f"multiindex:{entry}:{kind}")
+            case = dict(m, entry=entry)
+            rep.case(case, nontrivial=m["nrows"] > 0)
+            if kind == "crash":
+                rep.property_failure(case, f"{entry}: validate raised {type(out).__name__}: {str(out)[:100]}")
+                continue
+            accept = kind == "ok"
+            if accept != a["sat"]:
+                rep.property_failure(case, f"{entry}: verdict differs from the declared semantics of the level components: "
+                                           f"implementation {'accepts' if accept else 'rejects'}, Sat = {a['sat']}",
+                                     region="K_C01_strVacuous" if a["inK"] else None,
+                                     detail={"model_errors": a["errors"][:3],
+                                             "impl": None if accept else str(getattr(out, 'reason_code', ''))})
+
+
 def aggregate_sweep(rep, rng, n):
     """the whole-column built-in `unique_values_eq`: real check / Column / SeriesSchema / Index verdicts against Lean's
     `uniqueValuesEq` (documented set equality on the non-null values), including empty and all-null columns"""
@@ -206,6 +336,12 @@ def run(tier, replay=None):
     rep.audit["modules"] = MODULES
     if replay:
         cases = [json.loads(open(replay).read())["case"]]
+        if cases[0].get("mode") == "multiindex":
+            multiindex_sweep(rep, rng_for(PROP, "multiindex"), 300)
+            return rep.finish(rule="replay of the MultiIndex sweep (deterministic under VERIF_SEED)")
+        if cases[0].get("mode") == "series":
+            series_sweep(rep, rng_for(PROP, "series"), 400)
+            return rep.finish(rule="replay of the series sweep (deterministic under VERIF_SEED)")
         if cases[0].get("mode") in ("aggregate", "nullability", "builtin") or "b" in cases[0]:
             aggregate_sweep(rep, rng_for(PROP, "aggregate"), 150)
             nullability_sweep(rep)
@@ -218,6 +354,8 @@ def run(tier, replay=None):
         builtin_sweep(rep, rng_for(PROP, "builtin"), 400 if tier == "quick" else 8000)
         aggregate_sweep(rep, rng_for(PROP, "aggregate"), 150 if tier == "quick" else 3000)
         nullability_sweep(rep)
+        series_sweep(rep, rng_for(PROP, "series"), 400 if tier == "quick" else 10000)
+        multiindex_sweep(rep, rng_for(PROP, "multiindex"), 300 if tier == "quick" else 8000)
     impl = [impl_observe(c) for c in cases]
     ans = run_driver("C01", [dict(c, depth="schemaAndData") for c in cases])
     for c, o, a in zip(cases, impl, ans):
